@@ -33,11 +33,11 @@ func init() {
 				Edits: []Edit{{File: "driver/netconf/read.go", Old: "ss = patterns.v1Dot1Delim.Split(string(b), endRPCSplitLen)\n\t\t\t\t}\n\n\t\t\t\tb = []byte(ss[1])", New: "ss = patterns.v1Dot1Delim.Split(string(b), -1)\n\t\t\t\t}\n\n\t\t\t\tb = []byte(ss[len(ss)-1])"}}},
 			{ID: "C08-id-pattern-greedy", Desc: "message-id taken after a greedy wildcard", Rule: "C08/id-pattern",
 				Edits: []Edit{{File: "driver/netconf/driver.go", Old: "messageIDPattern      = `(?i)(?:message-id=\"(\\d+)\")`", New: "messageIDPattern      = `(?i)<(?:\\w+:)?rpc-reply.*message-id=\"(\\d+)\"`"}}},
-			{ID: "C08-remainder-not-examined", Desc: "reader files what follows the echo only on a later pass (the defect repaired by the fix commit)", Rule: "C08/echo-remainder-examined",
-				Edits: []Edit{{File: "driver/netconf/read.go", Old: "\t\t\t}\n\n\t\t\t// not an else:", New: "\t\t\t} else if false {\n\t\t\t\t_ = 0\n\t\t\t}\n\n\t\t\t// not an else:"},
-					{File: "driver/netconf/read.go", Old: "\t\t\tif d.Channel.PromptPattern.Match(b) {\n\t\t\t\tvar messageID int", New: "\t\t\tif !bytes.Contains(b, []byte(\"</rpc>\")) && d.Channel.PromptPattern.Match(b) {\n\t\t\t\tvar messageID int"}}},
-			{ID: "C08-idle-polls-skip-scan", Desc: "reader skips the buffer scan when the poll returned nothing", Rule: "C08/scan-every-pass",
-				Edits: []Edit{{File: "driver/netconf/read.go", Old: "\t\tb = append(b, rb...)\n", New: "\t\tif len(rb) == 0 {\n\t\t\ttime.Sleep(d.Channel.ReadDelay)\n\n\t\t\tcontinue\n\t\t}\n\n\t\tb = append(b, rb...)\n"}}},
+			{ID: "C08-remainder-not-examined", Desc: "reader looks at what follows its echo only on a later pass (defect repaired by db4b67c)", Rule: "C08/echo-remainder-examined",
+				Edits: []Edit{{File: "driver/netconf/read.go", Old: "\t\tfor d.Channel.PromptPattern.Match(b) { //nolint: nestif", New: "\tscan:\n\t\tfor d.Channel.PromptPattern.Match(b) { //nolint: nestif"},
+					{File: "driver/netconf/read.go", Old: "\t\t\t\tb = []byte(ss[1])\n\n\t\t\t\tcontinue\n", New: "\t\t\t\tb = []byte(ss[1])\n\n\t\t\t\tbreak scan\n"}}},
+			{ID: "C08-remainder-filed-unclassified", Desc: "what follows the echo is filed without being tested for being an echo (regression of the first repair)", Rule: "C08/echo-remainder-examined",
+				Edits: []Edit{{File: "driver/netconf/read.go", Old: "\t\t\t\tb = []byte(ss[1])\n\n\t\t\t\tcontinue\n\t\t\t}\n", New: "\t\t\t\tb = []byte(ss[1])\n\n\t\t\t\tif !d.Channel.PromptPattern.Match(b) {\n\t\t\t\t\tbreak\n\t\t\t\t}\n\t\t\t}\n"}}},
 			{ID: "C08-get-unlocked", Desc: "getMessage without the mutex", Rule: "C08/store-locked",
 				Edits: []Edit{{File: "driver/netconf/driver.go", Old: "func (d *Driver) getMessage(i int) []byte {\n\td.messagesLock.Lock()\n\tdefer d.messagesLock.Unlock()\n", New: "func (d *Driver) getMessage(i int) []byte {\n"}}},
 			{ID: "C08-double-build", Desc: "Lock builds its message twice (id skipped, first id never answered)", Rule: "C08/id-allocation",
@@ -52,7 +52,7 @@ func runC08(c *Ctx, r *Report) {
 	r.Rule("C08/id-allocation", "the message-id counter is written only by the constructor (101) and by buildPayload (copy, then +1); every RPC entry point builds exactly one message per call", 14)
 	r.Rule("C08/own-id", "sendRPC polls for the id of the message it serialised; getMessage looks up and deletes exactly its key; the reader files a reply under the id extracted from that buffer before clearing it", 4)
 	r.Rule("C08/echo-keeps-rest", "on recognising its echoed request the reader keeps everything after the first delimiter (split limit 2, element 1)", 1)
-	r.Rule("C08/echo-remainder-examined", "what remains in the buffer after the echo was trimmed off is tested for a complete message before the next read is appended", 1)
+	r.Rule("C08/echo-remainder-examined", "what remains in the buffer after the echo was trimmed off is tested for a complete message -- and for being an echo itself -- before the next read is appended", 2)
 	r.Rule("C08/scan-every-pass", "every pass of the NETCONF read loop tests the buffer for a complete message", 1)
 	r.Rule("C08/id-pattern", "the message-id pattern binds its capture to the first message-id attribute of the buffer (no greedy wildcard before the capture)", 1)
 	r.Rule("C08/store-locked", "every access to the message and subscription stores holds its mutex", 6)
